@@ -9,6 +9,7 @@ import (
 	"encoding/binary"
 	"filippo.io/sunlight/verifharness/internal/eng"
 	"fmt"
+	"time"
 
 	"filippo.io/torchwood"
 	"golang.org/x/mod/sumdb/tlog"
@@ -852,6 +853,37 @@ func (w *mirrorWorld) famInterleave(variant int) {
 			w.run(&mirrorSpec{Log: lg, Start: r.infoNx, End: p2, MaxPk: mirrorNumPk(r.infoNx, p2) - 1})
 			w.finish(a)
 		}
+	case 7: // a commit stopped at its upload of the public mirror checkpoint while another request commits a larger size
+		m := w.pick(1, 300)
+		w.grow(lg, m)
+		w.upload(lg, 0, m)
+		q := w.pick(m+1, m+300)
+		w.grow(lg, q)
+		tk, _ := w.probe(lg)
+		p := w.pick(q+1, min(q+300, top))
+		w.grow(lg, p)
+		a := w.beginSpec(&mirrorSpec{Log: lg, Start: m, End: p})
+		for a.state == mirrorParkedPkg {
+			w.advance(a)
+		}
+		if tk != nil && a.state == mirrorParkedCommit {
+			// X commits the older checkpoint q through its ticket and stops before publishing it
+			x := w.beginSpec(&mirrorSpec{Log: lg, Start: q, End: q, Ticket: tk.bytes})
+			x.parkAtMck = true
+			for x.state == mirrorParkedPkg || x.state == mirrorParkedCommit {
+				w.advance(x)
+			}
+			if x.state == mirrorParkedUpload {
+				// A's commit now either waits for X (one critical section per log) or overtakes it
+				w.timedRelease = 400 * time.Millisecond
+				w.advance(a)
+				w.timedRelease = 0
+				w.finish(x)
+				w.unblock(a)
+			}
+			w.finish(x)
+		}
+		w.finish(a)
 	default: // 2–3 concurrent requests, random ranges, random order
 		p := w.pick(300, min(900, top))
 		w.grow(lg, p)
